@@ -180,7 +180,7 @@ func TestVerif_C02_Injection(t *testing.T) {
 	st := vfNewStats(t)
 	rapid.Check(t, func(rt *rapid.T) {
 		controlling := rapid.Bool().Draw(rt, "controlling")
-		phase := rapid.SampledFrom([]string{"fresh", "checking", "checking", "connected", "connected", "restarted"}).Draw(rt, "phase")
+		phase := rapid.SampledFrom([]string{"fresh", "checking", "checking", "connected", "connected", "restarted", "restarted", "restarted-no-remote-creds"}).Draw(rt, "phase")
 		withV6 := rapid.Bool().Draw(rt, "withV6")
 		cfg := simAgentConfig{controlling: controlling, maxBinding: 7, disconnected: time.Hour, keepalive: 2 * time.Second, explicitTimeout: true}
 		locals := []duoSockSpec{{Kind: simKindHost}, {Kind: simKindSrflx}}
@@ -209,6 +209,8 @@ func TestVerif_C02_Injection(t *testing.T) {
 		}
 		prev := c02Creds{}
 		var answered [][stun.TransactionIDSize]byte
+		var oldOutstanding []c02Outstanding // unanswered checks of a generation ended by Restart
+		noRemoteCreds := false
 		handshake := func() {
 			s.ag.tick()
 			for _, d := range s.agentRequests() {
@@ -248,8 +250,12 @@ func TestVerif_C02_Injection(t *testing.T) {
 		case "connected":
 			handshake()
 			s.ag.tick()
-		case "restarted":
+		case "restarted", "restarted-no-remote-creds":
 			handshake()
+			s.ag.tick() // leaves checks of the ending generation unanswered
+			for _, d := range s.agentRequests() {
+				oldOutstanding = append(oldOutstanding, c02Outstanding{txid: d.msg.txid, src: d.src, dst: d.dst, d: d})
+			}
 			prev = c02Creds{s.ag.ufrag, s.ag.pwd, s.peer.ufrag, s.peer.pwd}
 			if err := s.ag.restart(); err != nil {
 				rt.Fatalf("harness: restart: %v", err)
@@ -257,16 +263,25 @@ func TestVerif_C02_Injection(t *testing.T) {
 			s.w.mu.Lock()
 			s.w.inflight = nil
 			s.w.mu.Unlock()
-			s.peer.ufrag, s.peer.pwd = "peerUfragGen2", "peerPasswordGeneration2Password"
+			// the peer may keep its credentials across the agent's Restart (one-sided restart as seen by the agent)
+			if !rapid.Bool().Draw(rt, "peerKeepsCredentials") {
+				s.peer.ufrag, s.peer.pwd = "peerUfragGen2", "peerPasswordGeneration2Password"
+			}
 			for i, l := range locals {
 				if _, err := s.ag.addLocal(i, l.V6, l.Kind, true); err != nil {
 					rt.Fatalf("harness: %v", err)
 				}
 			}
-			_ = s.ag.a.SetRemoteCredentials(s.peer.ufrag, s.peer.pwd)
+			if phase == "restarted" {
+				_ = s.ag.a.SetRemoteCredentials(s.peer.ufrag, s.peer.pwd)
+			} else {
+				noRemoteCreds = true
+			}
 			_ = s.ag.addRemoteSync(s.epCandidate(0, eps[0]))
 			_ = s.ag.addRemoteSync(s.epCandidate(1, eps[1]))
-			s.ag.tick()
+			if phase == "restarted" {
+				s.ag.tick()
+			}
 		}
 		s.purgeNonRequests()
 		// outstanding transactions as seen by the harness
@@ -287,6 +302,10 @@ func TestVerif_C02_Injection(t *testing.T) {
 			outstanding[k].expired = true
 		}
 		cur := c02Creds{s.ag.ufrag, s.ag.pwd, s.peer.ufrag, s.peer.pwd}
+		if noRemoteCreds {
+			// the remote credentials have not been signalled yet: nothing the peer sends can be authentic
+			cur.remoteU, cur.remoteP = "", ""
+		}
 
 		nInject := rapid.IntRange(1, 10).Draw(rt, "nInject")
 		for inj := 0; inj < nInject; inj++ {
@@ -305,6 +324,19 @@ func TestVerif_C02_Injection(t *testing.T) {
 				o = &outstanding[rapid.IntRange(0, len(outstanding)-1).Draw(rt, "which")]
 				to, srcAt = o.src, o.dst
 				class, key, txid, username = stun.ClassSuccessResponse, cur.remoteP, o.txid, ""
+			}
+			prevGenResp := false
+			if len(oldOutstanding) > 0 && rapid.IntRange(0, 3).Draw(rt, "prevGenResponse") == 0 {
+				// a late, correctly signed answer to a check of the generation ended by Restart
+				og := oldOutstanding[rapid.IntRange(0, len(oldOutstanding)-1).Draw(rt, "whichOld")]
+				o, useResp, prevGenResp = nil, true, true
+				srcAt = og.dst
+				for _, sk := range s.ag.socks {
+					if sk.idx == og.src.idx {
+						to = sk
+					}
+				}
+				class, key, txid, username = stun.ClassSuccessResponse, s.peer.pwd, og.txid, ""
 			}
 			// ---- mutations (0 = the effective message itself)
 			nMut := rapid.SampledFrom([]int{0, 1, 1, 1, 1, 2}).Draw(rt, "nMut")
@@ -447,6 +479,9 @@ func TestVerif_C02_Injection(t *testing.T) {
 				known[fmt.Sprintf("%s|%s|%d", r.NetworkType(), r.Address(), r.Port())] = true
 			}
 			cls := c02Classify(raw, srcAt, to, cur, known, outstanding)
+			if prevGenResp {
+				muts = append([]string{"response-to-previous-generation-check"}, muts...)
+			}
 			desc := fmt.Sprintf("phase=%s controlling=%v template=%s muts=%v extra=%s fp=%s class=%s method=%s src=%s to=%s → %s",
 				phase, controlling, map[bool]string{true: "response", false: "request"}[useResp], muts, extra, fingerprint, class, method, srcAt, to.name(), cls)
 			if cls == "not-stun" {
@@ -459,7 +494,7 @@ func TestVerif_C02_Injection(t *testing.T) {
 			s.injectFrom(ep, srcAt, to, raw)
 			emitted := s.w.emittedSince(from, 0)
 			after := c02Take(s.ag)
-			nearMiss := nMut == 1 && cls != "effective"
+			nearMiss := (nMut == 1 || (prevGenResp && nMut == 0)) && cls != "effective"
 			st.Record(vfHashStr(desc), nearMiss, "class:"+cls, "phase:"+phase, fmt.Sprintf("nMut:%d", nMut))
 			if nearMiss && st.WantSample() {
 				st.Sample(func() string { return desc })
